@@ -417,12 +417,10 @@ fn judge_vslerp_r<R: Real>(cx: &Cx, w: &[u64], got: &[f64; 4], t: &mut Tally) ->
     let boundary = main_ok && fb_ok;
     let res = if boundary {
         t.class(if c < 0.0 { "threshold:slerp 1-3e-7 within slack (opposite)" } else { "threshold:slerp 1-3e-7 within slack (parallel)" });
-        match main(t) {
-            Ok(r) => Ok(("slerp:main", r)),
-            Err(m1) => match fallback(t) {
-                Ok(r) => Ok(("slerp:fallback", r)),
-                Err(m2) => Err(format!("neither branch's answer: {} / {}", m1, m2)),
-            },
+        match (main(t), fallback(t)) {
+            (Ok(r1), Ok(r2)) => Ok(("slerp:boundary(either)", r1.min(r2))),
+            (Ok(r), Err(_)) | (Err(_), Ok(r)) => Ok(("slerp:boundary(either)", r)),
+            (Err(m1), Err(m2)) => Err(format!("neither branch's answer: {} / {}", m1, m2)),
         }
     } else if main_ok {
         t.class(if PI - th < 0.05 {
@@ -485,7 +483,10 @@ fn judge_rotate_r<R: Real>(cx: &Cx, w: &[u64], got: &[f64; 4], t: &mut Tally) ->
     // length is preserved whatever the plane
     let g: Vec<R> = rv(got);
     let ng = norm_ref(&g).f();
-    let tol_l = K * u * la;
+    // 2D: sin/cos and a 2x2 rotation (3 roundings, doubled, +margin). 3D: the axis is unit to ~3u and sin/cos to 1u each, so
+    // |q|^2 = 1 +- 8u, and q*v itself adds ~6 roundings: 14u first order, doubled
+    let kl = if n == 2 { 12.0 } else { 28.0 };
+    let tol_l = kl * u * la;
     if !((ng - la).abs() <= tol_l) {
         return Err(cx.fail("rotate_towards", format!("length {:e} of the result differs from |self| = {:e} by more than {:e}; {}", ng, la, tol_l, ctx())));
     }
@@ -525,7 +526,7 @@ fn judge_rotate_r<R: Real>(cx: &Cx, w: &[u64], got: &[f64; 4], t: &mut Tally) ->
         cands.push(-phi);
         t.class("rotate:2d-direction-free");
     }
-    let tol = (tol_plane + if clamp_zone { dth } else { 0.0 } + K * u * (1.0 + phi.abs())) * la;
+    let tol = (tol_plane + if clamp_zone { dth } else { 0.0 } + kl * u * (1.0 + phi.abs())) * la;
     let mut best = f64::INFINITY;
     let mut msg = String::new();
     for p in cands {
@@ -732,11 +733,13 @@ fn judge_lmc_r<R: Real>(cx: &Cx, w: &[u64], o: &LmcOut, t: &mut Tally) -> Result
             if targets.is_empty() {
                 return Err(cx.fail(name, format!("|a| = {:e} is inside the bounds but the result {:?} is not the input bit for bit; {}", len.f(), &got[..n], ctx())));
             }
-            let mut res = Err(String::new());
+            let mut res: Result<f64, String> = Err(String::new());
             for b in &targets {
-                res = on_bound(got, *b);
-                if res.is_ok() {
-                    break;
+                match (on_bound(got, *b), &res) {
+                    (Ok(r), Ok(r0)) if r >= *r0 => {}
+                    (Ok(r), _) => res = Ok(r),
+                    (Err(m), Err(_)) => res = Err(m),
+                    _ => {}
                 }
             }
             match res {
@@ -823,8 +826,13 @@ fn judge_arc_r<R: Real>(cx: &Cx, w: &[u64], o: &ArcOut, t: &mut Tally) -> Result
         let sing_possible = omc < lim + 8.0 * u || opc < lim + 8.0 * u;
         // inside the singular branches the result maps `from` to +-`from`: off by |from -+ to| <= sqrt(2 (2 eps + slack)); documented "about 0.001"
         let tol_sing = 1.5 * (2.0 * (lim + 8.0 * u)).sqrt();
-        let tol_main = K * u / sin + K * u;
-        let tol = if sing_certain { tol_sing } else if sing_possible { tol_sing.max(tol_main) } else { tol_main };
+        // first-order worst case of (cross, 1 + dot).normalize(): the computed dot carries 3u and the operands are unit only to
+        // ~1u each, so w = 1 + dot is off by <= 5u and the rotation angle 2 atan2(|c|, w) by 10u/sin(theta); the cross product carries
+        // 2u per lane (3.5u in norm), i.e. an axis error of 3.5u/sin(theta) that moves the image by twice that: 17u/sin(theta); doubled
+        let tol_main = 34.0 * u / sin + K * u;
+        // near parallel the main branch cannot be further off than the identity is (|c| <= theta + 2u against w ~ 2), so the
+        // singular-branch bound holds on both sides of the threshold; near opposite the axis is ill-defined like u/sin(theta)
+        let tol = if sing_certain || (sing_possible && omc < 1.0) { tol_sing + K * u } else if sing_possible { tol_sing.max(tol_main) } else { tol_main };
         t.class(if sing_certain {
             "arc:singular-branch"
         } else if sing_possible {
